@@ -43,7 +43,7 @@ var corpus = [][]string{
 	// shapes of daemon_test.go
 	{"mode seq", "bw 0 0 c", "bw 1 1 c", "bw 2 2 c", "bw 3 3 c", "bw 4 4 c", "bw 5 5 c", "start", "workers", "sdw", "seenlog", "isrunning", "isstopped"},
 	{"mode seq", "bw 1 0 c", "bw 1 0 c", "start", "bw 1 0 c", "fin 1", "bw 1 0 c", "workers", "sdw", "seenlog", "bw 1 0 c"},
-	{"mode seq", "sdw", "isstopped", "bw 1 0 c", "start", "isrunning"},
+	{"mode seq", "ctxstopped", "sdw", "isstopped", "ctxstopped", "bw 1 0 c", "start", "isrunning"},
 	// ties, negatives, gaps, early finishers, re-registration under another order
 	{"mode seq", "bw 1 -3 c", "bw 2 5 c", "bw 3 5 c", "bw 4 0 x", "bw 5 -3 c", "start", "workers", "fin 2", "bw 2 -7 c", "bw 6 9 c", "workers", "sdw", "seenlog"},
 	// orders at the ends of int: MaxInt / MinInt with ties, next to small orders (differences overflow)
@@ -96,8 +96,10 @@ func genSeq(rng *hx.Rng) []string {
 			s = append(s, "workers")
 		case x < 85:
 			s = append(s, "isrunning")
-		case x < 90:
+		case x < 88:
 			s = append(s, "isstopped")
+		case x < 91:
+			s = append(s, "ctxstopped")
 		case x < 95:
 			s = append(s, "start")
 		default:
@@ -105,6 +107,9 @@ func genSeq(rng *hx.Rng) []string {
 		}
 	}
 	s = append(s, "workers", "sdw", "seenlog")
+	if rng.Chance(1, 2) {
+		s = append(s, "ctxstopped")
+	}
 	for i, n := 0, rng.Range(0, 3); i < n; i++ {
 		switch rng.Intn(5) {
 		case 0:
@@ -203,7 +208,7 @@ func genConc(rng *hx.Rng) []string {
 	if parked {
 		s = append(s, "release", "waitpark")
 	}
-	s = append(s, "kickall", "go sdw", "join", "isstopped", bw(9), "start")
+	s = append(s, "kickall", "go sdw", "join", hx.Pick(rng, []string{"isstopped", "ctxstopped"}), bw(9), "start")
 
 	return s
 }
